@@ -118,10 +118,13 @@ class SeqSuite(Suite):
     nontrivial_rule = "at least three frames, one of them served without a heap call or by a heap fallback"
 
     def gen_case(self, rng, fs):
-        pol = rng.choice(POLICIES + ["mtsafe", "reusable", "stack"])
+        pol = rng.choice(POLICIES + ["mtsafe", "reusable", "stack", "reusable-moves", "reusable-moves"])
+        plain = pol == "reusable-moves"      # a plain reusable_storage: the one that can be moved
+        if plain:
+            pol = "reusable"
         ex = 0
         p = None
-        if pol in ("default", "reusable", "mtsafe") and rng.random() < 0.4:
+        if pol in ("default", "reusable", "mtsafe") and not plain and rng.random() < 0.4:
             ex = rng.choice([16, 40])
         if pol == "stack":
             p = rng.choice([0, 0, 41, 100, 153, 400, 2000])
@@ -168,10 +171,10 @@ class SeqSuite(Suite):
             if pol == "buffer" and r < 0.08 and not live:
                 lines.append("bufset %d" % rng.choice([0, 1, 3, 10, 50, 200]))
                 continue
-            if moves and r < 0.14:
-                mv = rng.choice(["mvctor", "mvassign", "mvassign", "mvself", "swapobj"])
+            if moves and r < 0.2:
+                mv = rng.choice(["mvctor", "mvassign", "mvself", "swapobj", "swapobj"])
                 if mv == "swapobj" and live:
-                    mv = "mvctor"
+                    mv = rng.choice(["mvctor", "mvassign"])
                 lines.append(mv)
                 continue
             want_alloc = len(live) < maxlive and (not live or rng.random() < 0.55)
